@@ -12,6 +12,7 @@
 #   C07_RESP_WSTALE_FIXED   respond.c the two receive paths clear writable when the new survey's pipe is busy
 #   C07_MSGQ_NB_FIXED       msgqueue.c nni_msgq_aio_get/put do not start with nni_aio_start
 #   C07_MSGQ_RESIZE_FIXED   msgqueue.c nni_msgq_resize runs the put and get queues afterwards
+#   C07_MSGQ_GET_RUNS_PUTQ  msgqueue.c nni_msgq_aio_get calls nni_msgq_run_putq after nni_msgq_run_getq
 _S = "src/sp/protocol/survey0/"
 
 
@@ -140,3 +141,12 @@ if "mq->mq_len > ((unsigned) cap + 1)" not in _zb:
     missing.append("nni_msgq_resize drop rule `mq_len > cap + 1` in src/core/msgqueue.c")
 extra_text.append("Definition C07_MSGQ_RESIZE_FIXED : bool := %s.  (* msgqueue.c nni_msgq_resize runs nni_msgq_run_putq/getq *)"
                   % ("true" if ("nni_msgq_run_putq(mq)" in _zb and "nni_msgq_run_getq(mq)" in _zb) else "false"))
+if "nni_msgq_run_getq(mq)" not in _gb:
+    missing.append("nni_msgq_aio_get: nni_msgq_run_getq call in src/core/msgqueue.c")
+if "nni_msgq_run_putq(mq)" not in _pb:
+    missing.append("nni_msgq_aio_put: nni_msgq_run_putq call in src/core/msgqueue.c")
+if "nni_msgq_run_getq(mq)" in _pb:
+    missing.append("nni_msgq_aio_put now also runs the readers: the C07 raw models have no flag for that (src/core/msgqueue.c)")
+_gp = re.search(r"nni_msgq_run_getq\(mq\);(?:\s*//[^\n]*)*\s*nni_msgq_run_putq\(mq\);", _gb)
+extra_text.append("Definition C07_MSGQ_GET_RUNS_PUTQ : bool := %s.  (* msgqueue.c nni_msgq_aio_get: run_getq then run_putq *)"
+                  % ("true" if _gp else "false"))
